@@ -296,10 +296,63 @@ class Site:
         return '<%s bb%d %s @%s>' % (self.body.path, self.block, self.callee, self.where)
 
 
+FACTS = [None]
+_KNOWN = [None]
+_SUMMARIES = {}
+
+
+def known_fns():
+    """body paths that existed when the rules were written: rules treat these as opaque, named calls.
+    A function that is NOT in this list is new (typically a helper extracted by a refactoring) and is
+    inlined by the path enumerator when it is straight-line code."""
+    if _KNOWN[0] is None:
+        try:
+            with open(os.path.join(os.path.dirname(os.path.abspath(__file__)), 'known_fns.txt')) as fh:
+                _KNOWN[0] = {l.strip() for l in fh if l.strip()}
+        except OSError:
+            _KNOWN[0] = set()
+    return _KNOWN[0]
+
+
+def subst_params(t, args):
+    if not isinstance(t, tuple):
+        return t
+    if t and t[0] == 'param' and isinstance(t[1], int) and 1 <= t[1] <= len(args):
+        return args[t[1] - 1]
+    if isinstance(t, FrozenDict):
+        return FrozenDict(tuple((k, subst_params(v, args)) for k, v in t))
+    return tuple(subst_params(x, args) if isinstance(x, tuple) else x for x in t)
+
+
+def inline_summary(path, depth=0):
+    """(return term, effects) of a new, synchronous, straight-line crate-local function, else None"""
+    if path in _SUMMARIES:
+        return _SUMMARIES[path]
+    _SUMMARIES[path] = None
+    facts = FACTS[0]
+    if facts is None or depth > 2 or path in known_fns():
+        return None
+    b = facts.body(path)
+    if b is None or b.kind not in ('fn', 'method') or len(b.blocks) > 60:
+        return None
+    s = Sym(b, max_paths=64)
+    try:
+        s.run()
+    except Lost:
+        return None
+    live = [p for p in s.paths if p.end != 'diverge']
+    if len(live) != 1 or live[0].end != 'return' or live[0].conds:
+        return None
+    _SUMMARIES[path] = (live[0].ret, [e for e in live[0].effects if e[0] in ('call', 'write')])
+    return _SUMMARIES[path]
+
+
 class Ctx:
     def __init__(self, facts):
         self.f = facts
         self._calls = None
+        FACTS[0] = facts
+        _SUMMARIES.clear()
 
     def body(self, path):
         b = self.f.body(path)
@@ -493,6 +546,9 @@ def const_term(o):
     if 'def' in o:
         return ('named', o['def'])
     return ('const', o.get('text', '?'), o.get('ty'))
+
+
+LOOP_MUTATORS = {'push', 'push_back', 'push_front', 'insert', 'extend', 'extend_from_slice', 'append', 'push_str', 'remove', 'clear', 'pop', 'truncate', 'retain', 'entry'}
 
 
 class Path:
@@ -738,13 +794,25 @@ class Sym:
                         if all(is_await_block(body, x) for x in comp):
                             continue
                         assigned = set()
+                        mutrefs = {}
                         for x in comp:
                             for stt in body.blocks[x]['stmts']:
                                 if stt['k'] == 'assign' and not stt['place']['p']:
                                     assigned.add(stt['place']['l'])
+                                # remember `_r = &mut _x` temporaries: a collection local grown inside the loop
+                                # (vec.push(..) / map.insert(..)) is loop-carried state too
+                                if stt['k'] == 'assign' and stt['rv']['k'] == 'ref' and stt['rv'].get('mut') and not stt['rv']['place']['p'] and not stt['place']['p']:
+                                    mutrefs[stt['place']['l']] = stt['rv']['place']['l']
                             t = body.blocks[x]['term']
                             if t['k'] == 'call' and not t['dest']['p']:
                                 assigned.add(t['dest']['l'])
+                        for x in comp:
+                            tt = body.blocks[x]['term']
+                            if tt['k'] == 'call' and tt['args']:
+                                cp = callee_path(tt) or ''
+                                a0 = tt['args'][0]
+                                if cp.split('::')[-1] in LOOP_MUTATORS and a0.get('k') in ('move', 'copy') and not a0['place']['p'] and a0['place']['l'] in mutrefs:
+                                    assigned.add(mutrefs[a0['place']['l']])
                         heads.setdefault(h, set()).update(assigned)
                         bodies.append(comp)
             self._loops = heads
@@ -836,6 +904,23 @@ class Sym:
                     path = c.get('resolved') or c['path']
                     term = ('call', path, tuple(args), b)
                     term = simplify_call(term, c, t)
+                    summ = inline_summary(path) if (c.get('local') or c.get('resolved_local')) else None
+                    if summ is not None:
+                        # a new straight-line helper: splice its effects and use its return value
+                        for e in summ[1]:
+                            if e[0] == 'call':
+                                p.effects.append(('call', e[1], tuple(subst_params(a, args) for a in e[2]), b, e[4]))
+                            else:
+                                p.effects.append(('write', subst_params(e[1], args), subst_params(e[2], args), b))
+                        term = subst_params(summ[0], args)
+                        self.kill_mut_args(p, args)
+                        if t['target'] is None:
+                            p.end = 'diverge'
+                            self.paths.append(p)
+                        else:
+                            self.assign(p, t['dest'], term, b)
+                            stack.append((t['target'], p))
+                        continue
                 p.effects.append(('call', path, tuple(args), b, c))
                 self.kill_mut_args(p, args)
                 self.mutate_roots(p, t, path, b, args)
